@@ -239,7 +239,11 @@ def r04_5(ctx):
         T = ctx.tables(which)
         eat = T["helpers"].get("eat") or []
         need = [pc for pc in eat if pc["ret"] == "None"]
-        ok = bool(need) and all(any(a.startswith("loop-begin") for a, _ in pc["actions"]) and any(g.startswith("input.next() matches Some") for g in pc["guards"]) for pc in need)
+        # the None answer is given only where the queue's own next() came back empty, and the iteration that did get a character
+        # moves it into temp_buf and goes round again
+        drained = bool(need) and all(any(g.startswith("input.next() matches Some") and v is False for g, v in pc["guards"].items()) for pc in need)
+        moving = [pc for pc in eat if any(g.startswith("input.next() matches Some") and v is True for g, v in pc["guards"].items())]
+        ok = drained and bool(moving) and all(any(a == "self.temp_buf.push_char" for a, _ in pc["actions"]) and pc["ret"] not in ("None",) for pc in moving)
         ctx.ob("R04.5", "eat-drains-the-queue-when-it-needs-more/%s" % which, ok,
                "when eat() answers 'need more input' it has moved the *whole* queue into temp_buf (a loop over input.next())" if ok else
                "eat() can answer 'need more input' leaving characters in the caller's queue: feed() returns Done with unconsumed input and finish() asserts", "%s tokenizer eat" % which)
